@@ -205,7 +205,20 @@ def _jsonable(x):
     return repr(x)
 
 
-def run_e2(name, names, body, pre=None, positive=(), expect_raise=None, max_paths=64, budget_s=240.0, natoms=80,
+def run_e2(name, names, body, natoms=None, **kw):
+    """run_e2_once with as few atom slots as possible (ring operations cost grows with the number of generators):
+    start small and double when a path runs out of slots."""
+    n = 24 if natoms is None else min(natoms, 24)
+    while True:
+        r = run_e2_once(name, names, body, natoms=n, **kw)
+        if n < 192 and any("out of atom slots" in e for e in r.get("harness_errors", [])):
+            n *= 2
+            continue
+        r["natoms"] = n
+        return r
+
+
+def run_e2_once(name, names, body, pre=None, positive=(), expect_raise=None, max_paths=64, budget_s=240.0, natoms=80,
            setup=None, concrete=None, first_sample=None, functions=(), bounds="", stubs=(), pi=True, rtol=1e-7,
            allow_status=("ok",), lemmas=None, alt_timeout_ms=4000, solver_timeout_ms=20000):
     """Explore ``body(H, V)`` symbolically (V: dict name -> Sym) and replay violations concretely.
@@ -250,6 +263,8 @@ def run_e2(name, names, body, pre=None, positive=(), expect_raise=None, max_path
             harness_errors.append("path aborted: %s" % p.error)
         elif p.status == "shim-error":
             harness_errors.append("shim error: %s" % (p.error or "")[-700:])
+        elif p.status == "diverged":
+            pass
         elif p.status not in allow_status:
             # an outcome the harness did not expect: exception / non-finite result inside the real code
             c = core.ClaimResult("outcome:" + p.status, "violated", dict(p.sample), (p.error or "")[-600:])
@@ -287,6 +302,24 @@ def run_e2(name, names, body, pre=None, positive=(), expect_raise=None, max_path
                 break
         if not done:
             unreproduced.append(dict(claim=cname, witness=_jsonable(d["witness"]), detail=d["detail"]))
+    # translator validation: at the sample point of explored paths the real float64 code must agree with
+    # every claim the solver discharged on that path (checks shim + stubs + oracle against the implementation)
+    validated = 0
+    for p in [q for q in paths if q.status == "ok"][:2]:
+        held = [c.name for c in p.claims if c.verdict == "held"]
+        if not held:
+            continue
+        rep = replay_concrete(conc, names, p.sample, rtol)
+        r = rep.get("results", {})
+        for cn in held:
+            if cn in r:
+                validated += 1
+                if not r[cn][0]:
+                    harness_errors.append("model/real disagreement at sample %s: claim %s held symbolically but fails on the float64 code (%s)"
+                                          % (_jsonable(p.sample), cn, r[cn][1]))
+        if "error" in rep and not r:
+            harness_errors.append("model/real disagreement: real code raised %s at sample %s" % (rep["error"], _jsonable(p.sample)))
+    res["validated"] = validated
     res["violations"] = violations
     res["unreproduced"] = unreproduced
     res["inconclusive"] = [k for k, v in claims.items() if v["inconclusive"] and not v["violated"]]
@@ -547,6 +580,7 @@ def run_property(pid, modname, tier="quick", seed=0, level="model_checking", pro
     known_hit = {}
     harness_err = []
     for r in results:
+        fam_seen = set()
         for v in r.get("violations", []):
             k = _match_known(known, pid, r["name"], v["claim"])
             if k is not None:
@@ -554,6 +588,10 @@ def run_property(pid, modname, tier="quick", seed=0, level="model_checking", pro
                 v["known_finding"] = k["id"]
             else:
                 n_viol += 1
+                fam = re.sub(r"\[[^\]]*\]$", "", v["claim"])  # array claims: one line per family, all recorded in the evidence
+                if fam in fam_seen:
+                    continue
+                fam_seen.add(fam)
                 lines.append("VIOLATION property=%s replay=%s" % (pid, v["replay"]))
                 lines.append("  obligation=%s claim=%s witness=%s %s" % (r["name"], v["claim"], json.dumps(v["witness"])[:300], (v.get("detail") or "")[:200]))
         for e in r.get("harness_errors", []):
@@ -575,8 +613,8 @@ def run_property(pid, modname, tier="quick", seed=0, level="model_checking", pro
     cov = dict(
         states=sum(r.get("paths", 0) for r in results),
         transitions=sum(r.get("queries", 0) for r in results),
-        traces_validated_against_impl=sum(len(r.get("violations", [])) + len(r.get("unreproduced", [])) for r in results)
-        + sum(r.get("validated", 0) for r in results),
+        traces_validated_against_impl=sum(r.get("validated", 0) for r in results),
+        replays=sum(len(r.get("violations", [])) + len(r.get("unreproduced", [])) for r in results),
         samples=samples[:12] or [dict(note="no samples")],
         obligations=n_ob,
         discharged=n_dis,
@@ -609,8 +647,13 @@ def run_property(pid, modname, tier="quick", seed=0, level="model_checking", pro
     print("%s tier=%s obligations=%d discharged=%d inconclusive=%d unreproduced=%d violations=%d known=%d paths=%d queries=%d solver=%.1fs wall=%.1fs"
           % (pid, tier, n_ob, n_dis, len(incon), len(unrep), n_viol, len(known_hit), cov["states"], cov["transitions"], cov["solver_time_s"], ev["wall_s"]))
     if harness_err:
-        for e in harness_err[:10]:
-            print("HARNESS-ERROR %s" % e[:1500])
+        seen_e = set()
+        for e in harness_err:
+            k = e[:60] + e[-120:]
+            if k in seen_e or len(seen_e) >= 4:
+                continue
+            seen_e.add(k)
+            print("HARNESS-ERROR %s" % (e[:100] + " ... " + e[-500:] if len(e) > 600 else e))
     if n_viol:
         return 1
     if harness_err:
